@@ -241,6 +241,16 @@ def cut(src, spec):
     toks = tokenize(src)
     lo, hi = find_fn(src, toks, spec["func"], spec.get("impl_hint"))
     body = split_block(toks, lo + 1, hi)
+    if spec.get("expr_in"):
+        # an expression inside the innermost statement that contains the markers
+        st = innermost_with(body, src, spec["expr_in"])
+        if st is None:
+            raise ValueError(f"no statement contains all of {spec['expr_in']}")
+        m = re.search(spec["expr_regex"], src[st.start : st.end], re.S)
+        if not m:
+            raise ValueError(f"expression pattern {spec['expr_regex']!r} not found (source was restructured)")
+        line0 = src.count("\n", 0, st.start) + 1
+        return m.group(1), (line0, src.count("\n", 0, st.end) + 1)
     if spec.get("after") is None:
         block = body
         first = 0
